@@ -32,6 +32,16 @@ Theorem C19_src_text_routes : interpolation_formats_every_part = true /\ interpo
   /\ text_routes_have_no_numeric_cast = true /\ display_impls_have_no_numeric_cast = true.
 Proof. repeat split; reflexivity. Qed.
 
+(* round 9 - no number->text route has MEMORY: no field of `struct Vm` and no static of vm.rs / core.rs / value.rs / object.rs has a
+   float in its type (src_vm_fields is the regenerated field list), the bodies of format_string_impl / String.from / print
+   touch no state (every self./vm. access is a method call; no static, thread_local, Cell), build_string_impl writes no field,
+   and the Display impl of Value names no static / Cell.  What each route prints for a number is then a function of that
+   number alone - the sequence family of tools/props/C19.py tests exactly this. *)
+Theorem C19_src_no_number_memory : vm_has_no_float_field = true /\ no_float_static = true
+  /\ text_routes_are_stateless = true /\ build_string_writes_no_field = true /\ display_is_stateless = true
+  /\ src_vm_fields <> nil.
+Proof. repeat split; try reflexivity; discriminate. Qed.
+
 (* the model instantiated with what the sources say *)
 Definition lex_number_cur := lex_number_src number_peek_next_guard.
 Definition print_f64_cur (platform_signed_zero : bool) := print_f64_src display_neg_zero_branch platform_signed_zero.
@@ -186,6 +196,7 @@ Print Assumptions C19_src_display.
 Print Assumptions C19_src_scanner.
 Print Assumptions C19_src_parse_sites.
 Print Assumptions C19_src_text_routes.
+Print Assumptions C19_src_no_number_memory.
 Print Assumptions C19_print_parse_roundtrip.
 Print Assumptions C19_print_parse_roundtrip_model.
 Print Assumptions C19_print_parse_literal_roundtrip.
